@@ -3,6 +3,7 @@ On all-concrete operands every entry is exactly the native operation."""
 from __future__ import annotations
 
 import builtins as _b
+import types as _types
 
 import z3
 
@@ -156,7 +157,10 @@ class Dispatcher:
                 if a.kind != "str":
                     raise TypeError("fromhex() argument must be str")
                 return s_unhexlify(a)
-        return getattr(recv, name)(*args, **kwargs)
+        f = getattr(recv, name)
+        if isinstance(recv, _types.ModuleType):
+            f = self.subst(f)
+        return f(*args, **kwargs)
 
     # -------- subscripts
     def getitem(self, obj, key):
